@@ -41,6 +41,12 @@ class Exec:
         stack = [goal]
         while stack:
             g = stack.pop()
+            if z3.is_eq(g) and g.arg(0).sort() == z3.BoolSort():      # True == X  /  False == X
+                a, b = g.arg(0), g.arg(1)
+                if z3.is_true(a): g = b
+                elif z3.is_true(b): g = a
+                elif z3.is_false(a): g = z3.Not(b)
+                elif z3.is_false(b): g = z3.Not(a)
             if z3.is_and(g):
                 stack.extend(g.children())
             else:
@@ -540,30 +546,32 @@ class Exec:
         if isinstance(it, SClosure) and it.kind == "emptylist": return st, EmptySeq()
         if isinstance(it, SRef):
             c = st.cell(it.ref)
-            if isinstance(c, ListCell): return st, SSeq(c.elem, c.n, c.arr)
+            if isinstance(c, ListCell): return st, SSeq(c.elem, c.n, c.arr, setview=c.setview)
             if isinstance(c, DictCell):
                 st, n, karr = ops.dict_keyseq(st, c)
-                return st, SSeq(c.kty, n, self._norm(karr, n, S.sort_of(c.kty)))
+                return st, SSeq(c.kty, n, self._norm(karr, n, S.sort_of(c.kty)), setview=c.dom)
             if isinstance(c, SetCell):
                 st, n, karr = ops.set_keyseq(st, c.elem, c.mem)
-                return st, SSeq(c.elem, n, self._norm(karr, n, S.sort_of(c.elem)))
+                return st, SSeq(c.elem, n, self._norm(karr, n, S.sort_of(c.elem)), setview=c.mem)
         if isinstance(it, SDictView):
             c = st.cell(it.ref)
             st, n, karr = ops.dict_keyseq(st, c)
             i = z3.Int("i!v")
             if it.kind == "keys":
-                return st, SSeq(c.kty, n, self._norm(karr, n, S.sort_of(c.kty)))
+                return st, SSeq(c.kty, n, self._norm(karr, n, S.sort_of(c.kty)), setview=c.dom)
             if it.kind == "values":
                 vs = S.sort_of(c.vty)
                 arr = z3.Lambda([i], z3.If(z3.And(i >= 0, i < n), c.val[karr[i]], S.dflt(vs)))
-                return st, SSeq(c.vty, n, arr)
+                x = z3.Const("x!ts", vs); kk = z3.Const("k!ts", S.sort_of(c.kty))
+                sv = z3.Lambda([x], z3.Exists([kk], z3.And(c.dom[kk], c.val[kk] == x)))
+                return st, SSeq(c.vty, n, arr, setview=sv)
         if isinstance(it, SSetV):
             st, n, karr = ops.set_keyseq(st, it.elem, it.mem)
-            return st, SSeq(it.elem, n, self._norm(karr, n, S.sort_of(it.elem)))
+            return st, SSeq(it.elem, n, self._norm(karr, n, S.sort_of(it.elem)), setview=it.mem)
         if isinstance(it, SSubSet):
             c = st.cell(it.ref)
             st, n, karr = ops.set_keyseq(st, it.elem, c.val[it.key])
-            return st, SSeq(it.elem, n, self._norm(karr, n, S.sort_of(it.elem)))
+            return st, SSeq(it.elem, n, self._norm(karr, n, S.sort_of(it.elem)), setview=c.val[it.key])
         raise Unsupported(f"iteration over {it}")
 
     def _norm(self, arr, n, es):
